@@ -870,14 +870,23 @@ Fixpoint if_exp1 (nname iname : string) (i : nat) (todo : nat) : exp :=
   | O => access1 nname i
   | S t => EIfExp (eq_const iname i) (access1 nname i) (if_exp1 nname iname (S i) t)
   end.
-(* the 2-d version walks (i, j) in row-major order up to (max_i, max_j); [todo] steps remain *)
-Fixpoint if_exp2 (nname iname jname : string) (max_j : nat) (i j : nat) (todo : nat) : exp :=
-  match todo with
-  | O => access2 nname i j
-  | S t =>
-      EIfExp (EBoolOp And [eq_const iname i; eq_const jname j]) (access2 nname i j)
-             (if Nat.ltb j max_j then if_exp2 nname iname jname max_j i (S j) t
-              else if_exp2 nname iname jname max_j (S i) 0 t)
+(* the 2-d version walks (i, j) in row-major order; every row has its own last column
+   (an empty row still contributes its column 0; an empty LAST row: IndexError) *)
+Definition entries2 (rows : list nat) : list (nat * nat) :=
+  List.concat (map (fun p => map (fun j => (fst p, j)) (seq 0 (Nat.max 1 (snd p))))
+                   (combine (seq 0 (List.length rows)) rows)).
+Fixpoint chain2 (nname iname jname : string) (l : list (nat * nat)) : res exp :=
+  match l with
+  | [] => Raise
+  | [(i, j)] => Ok (access2 nname i j)
+  | (i, j) :: r =>
+      y <- chain2 nname iname jname r ;;
+      Ok (EIfExp (EBoolOp And [eq_const iname i; eq_const jname j]) (access2 nname i j) y)
+  end.
+Definition if_exp_rows (nname iname jname : string) (rows : list nat) : res exp :=
+  match rev rows with
+  | [] | O :: _ => Raise                                     (* max_j[i]: IndexError *)
+  | _ => chain2 nname iname jname (entries2 rows)
   end.
 
 (* len(gtype.elts) or len(gtype.slice.elts) *)
@@ -916,10 +925,9 @@ Definition rw_subscript (st : rstate) (v s : exp) : res exp :=
           let t' := match t with EConstNode e => e | e => e end in
           match t' with
           | ETuple elts0 =>
-              (* the elements of a NAMED tuple are read from the name, unless all are constants *)
+              (* the elements of a NAMED tuple are read from the name *)
               let elts := match v with
-                          | EName n => if forallb is_constant elts0 then elts0
-                                       else map (access1 n) (seq 0 (List.length elts0))
+                          | EName n => map (access1 n) (seq 0 (List.length elts0))
                           | _ => elts0
                           end in
               match elts with
@@ -945,23 +953,11 @@ Definition rw_subscript (st : rstate) (v s : exp) : res exp :=
            | ESubscript (EName nname) (EName iname) =>
                match assoc (tys st) nname with
                | Some (TyNode (ETuple (ETuple l0 :: l))) =>
-                   match l0 with
-                   | [] => Raise
-                   | _ :: _ => Ok (if_exp2 nname iname i (List.length l0 - 1) 0 0
-                                           (S (List.length l) * List.length l0 - 1))
-                   end
+                   let elts := ETuple l0 :: l in
+                   if_exp_rows nname iname i (map (fun r => List.length (row_elts r elts)) elts)
                | Some (TyNode (ETuple [])) => Raise          (* gtype.elts[0]: IndexError *)
                | Some (TyNode (ESubscript _ (ETuple outer))) =>
-                   (* the row length is that of the first row (the outer length if it has no elements) *)
-                   match outer with
-                   | [] => Raise                             (* outer_tuple.elts[0]: IndexError *)
-                   | row0 :: _ =>
-                       let nj := List.length (row_elts row0 outer) in
-                       match nj with
-                       | O => Raise                          (* unbounded recursion *)
-                       | S mj => Ok (if_exp2 nname iname i mj 0 0 (List.length outer * nj - 1))
-                       end
-                   end
+                   if_exp_rows nname iname i (map (fun r => List.length (row_elts r outer)) outer)
                | Some (TyNode (ESubscript _ (EList _))) => Unmod
                | _ => Raise                                  (* AttributeError *)
                end
@@ -1293,8 +1289,41 @@ Definition rw_fun (f : fundef) (body : list stmt) : res (list stmt) :=
   _ <- match f_ret f with Some a => rw_exp st a | None => Ok (EConst CNone) end ;;
   Ok b.
 
+(* the names of the temporaries the rewriting introduces are reserved: any ast.Name / argument
+   of the ORIGINAL tree starting with one of them raises, before any pass *)
+Definition reserved (x : string) : bool :=
+  prefix "_temptup" x || prefix "_iftarg" x || prefix "_forit" x.
+
+Fixpoint exp_reserved (e : exp) {struct e} : bool :=
+  match e with
+  | EName x => reserved x
+  | EConst _ => false
+  | EConstNode e' => exp_reserved e'
+  | EBoolOp _ l | ETuple l | EList l => existsb exp_reserved l
+  | EBinOp _ a b | ECompare _ a b | ESubscript a b => exp_reserved a || exp_reserved b
+  | EUnOp _ a => exp_reserved a
+  | EIfExp c t f => exp_reserved c || exp_reserved t || exp_reserved f
+  | ECall f args => reserved f || existsb exp_reserved args
+  end.
+Fixpoint stmt_reserved (s : stmt) {struct s} : bool :=
+  match s with
+  | SAssign (TName x) e => reserved x || exp_reserved e
+  | SAssign (TTuple l) e => existsb exp_reserved l || exp_reserved e
+  | SAugAssign x _ e => reserved x || exp_reserved e
+  | SIf c b o => exp_reserved c || existsb stmt_reserved b || existsb stmt_reserved o
+  | SFor x it b o => reserved x || exp_reserved it || existsb stmt_reserved b || existsb stmt_reserved o
+  | SReturn e => exp_reserved e
+  | SExpr None => false
+  | SExpr (Some e) => exp_reserved e
+  end.
+Definition fun_reserved (f : fundef) : bool :=
+  existsb (fun p => reserved (fst p) || match snd p with Some a => exp_reserved a | None => false end) (f_args f)
+  || match f_ret f with Some a => exp_reserved a | None => false end
+  || existsb stmt_reserved (f_body f).
+
 (* ast2ast.py: ConstantFolder, (ReplaceTypeAnn), ReplaceMultiTargetAssign, ASTRewriter, ConstantFolder *)
 Definition a2a (f : fundef) : res (list stmt) :=
+  if fun_reserved f then Raise else
   b1 <- fold_list (f_body f) ;;
   b2 <- multi_list b1 ;;
   b3 <- rw_fun f b2 ;;
@@ -1330,9 +1359,27 @@ Section Guard.
      over and unpacked, and are never re-bound *)
   Variable plen : string -> option nat.
   Definition prot (a : string) : bool := match plen a with Some _ => true | None => false end.
+  (* ... those whose elements are all annotated bool *)
+  Variable pbool : string -> bool.
+  (* ... those whose elements are all annotated Qint[...] *)
+  Variable pint : string -> bool.
 
   (* [lv]: the enclosing loop variables (they are replaced by constants before the rewriter
      sees the expression): the only names that may index a subscript *)
+  (* len(a) / sum(a) / all(a) / any(a) of a typed tuple argument (sum: of at least two elements;
+     all / any: of at least one element, all annotated bool) *)
+  Definition typed_call (f : string) (args : list exp) : bool :=
+    match args with
+    | [EName a] =>
+        okn a && match plen a with
+                 | Some n => String.eqb f "len" || (String.eqb f "sum" && Nat.leb 2 n)
+                             || ((String.eqb f "all" || String.eqb f "any") && Nat.leb 1 n && pbool a)
+                             || ((String.eqb f "min" || String.eqb f "max") && Nat.leb 1 n && (pbool a || pint a))
+                 | None => false
+                 end
+    | _ => false
+    end.
+
   Fixpoint gexp (lv : list string) (e : exp) {struct e} : bool :=
     match e with
     | EName x => okn x
@@ -1350,7 +1397,8 @@ Section Guard.
                      | EName i => okn i && existsb (String.eqb i) lv
                      | _ => false
                      end
-    | ECall f args => negb (existsb (String.eqb f) special_calls) && forallb (gexp lv) args
+    | ECall f args =>
+        (negb (existsb (String.eqb f) special_calls) && forallb (gexp lv) args) || typed_call f args
     end.
 
   (* the names that may be bound *)
@@ -1394,12 +1442,14 @@ Section Guard.
     end.
 End Guard.
 
-(* source programs: no name starts with an underscore *)
-Definition user_name (x : string) : bool := negb (prefix "_" x).
+(* source programs: no name starts with `__` (visit_Name raises on a read, a binding is silently
+   confused with a temporary) or with a reserved prefix (ast2ast raises) *)
+Definition user_name (x : string) : bool := negb (dunder x) && negb (reserved x).
 (* after ReplaceMultiTargetAssign: `_temptup` may occur; the rewriter's own names may not *)
 Definition visible (x : string) : bool := negb (dunder x) && negb (is_iftarg x) && negb (is_forit x).
 
-(* THE GUARD of the preservation theorem.  Inside: names not starting with `_`; bool / int
+(* THE GUARD of the preservation theorem.  Inside: names not starting with `__`, `_temptup`,
+   `_iftarg`, `_forit`; bool / int
    constants only; no `**`; subscripts indexed by a constant or by an enclosing loop variable;
    no call of len / sum / all / any / min / max / abs / print / ord / chr, range only as a loop
    iterator; tuple targets only with a literal tuple / list of the same length, or an argument
@@ -1414,17 +1464,41 @@ Definition plen_of (f : fundef) (a : string) : option nat :=
       if String.eqb tn "Tuple" && user_name a then Some (List.length l) else None
   | _ => None
   end.
-Definition a2a_guard (f : fundef) : bool := forallb (gstmt user_name (plen_of f) []) (f_body f).
+Definition is_bool_ann (e : exp) : bool := match e with EName t => String.eqb t "bool" | _ => false end.
+Definition pbool_of (f : fundef) (a : string) : bool :=
+  match assoc (tys (init_state (f_args f))) a with
+  | Some (TyNode (ESubscript (EName tn) (ETuple l))) =>
+      String.eqb tn "Tuple" && user_name a && forallb is_bool_ann l
+  | _ => false
+  end.
+Definition is_int_ann (e : exp) : bool :=
+  match e with ESubscript (EName t) _ => String.eqb t "Qint" | _ => false end.
+Definition pint_of (f : fundef) (a : string) : bool :=
+  match assoc (tys (init_state (f_args f))) a with
+  | Some (TyNode (ESubscript (EName tn) (ETuple l))) =>
+      String.eqb tn "Tuple" && user_name a && forallb is_int_ann l
+  | _ => false
+  end.
+Definition a2a_guard (f : fundef) : bool :=
+  forallb (gstmt user_name (plen_of f) (pbool_of f) (pint_of f) []) (f_body f).
+Definition is_vint (v : val) : bool := match v with VInt _ => true | _ => false end.
 
-(* the environment gives every typed tuple argument a tuple of the annotated length *)
+Definition is_vbool (v : val) : bool := match v with VBool _ => true | _ => false end.
+(* the environment gives every typed tuple argument a tuple of the annotated length, of
+   booleans when every element is annotated bool, of integers when every element is annotated
+   Qint[...] *)
 Definition conforms (f : fundef) (rho : env) : Prop :=
-  forall a n, plen_of f a = Some n -> exists vs, rho a = Some (VTup vs) /\ List.length vs = n.
+  (forall a n, plen_of f a = Some n -> exists vs, rho a = Some (VTup vs) /\ List.length vs = n) /\
+  (forall a, pbool_of f a = true -> exists vs, rho a = Some (VTup vs) /\ forallb is_vbool vs = true) /\
+  (forall a, pint_of f a = true -> exists vs, rho a = Some (VTup vs) /\ forallb is_vint vs = true).
 
 (* decidable form of [conforms] (sufficient: P_A2A.conforms_check) *)
 Definition conforms_b (f : fundef) (rho : env) : bool :=
   forallb (fun x => match plen_of f x with
                     | Some n => match rho x with
-                                | Some (VTup vs) => Nat.eqb (List.length vs) n
+                                | Some (VTup vs) => Nat.eqb (List.length vs) n &&
+                                                    (negb (pbool_of f x) || forallb is_vbool vs) &&
+                                                    (negb (pint_of f x) || forallb is_vint vs)
                                 | _ => false
                                 end
                     | None => true
